@@ -159,33 +159,125 @@ def build_ocaml(pid):
         return rc, out + out2
 
 
-def build_harness():
+def _go_decls(src):
+    """top-level identifiers declared in a Go file (functions, types, vars, consts; grouped blocks included)"""
+    names = set()
+    block = False
+    for line in src.splitlines():
+        if block:
+            if line.startswith(")"):
+                block = False
+                continue
+            m = re.match(r"^\t([A-Za-z_]\w*)(?:\s*,\s*([A-Za-z_]\w*))*\b", line)
+            if m:
+                for part in re.split(r"\s*,\s*", line.strip().split("=")[0].split(" ")[0]):
+                    if re.fullmatch(r"[A-Za-z_]\w*", part):
+                        names.add(part)
+            continue
+        m = re.match(r"^(?:var|const|type)\s*\($", line)
+        if m:
+            block = True
+            continue
+        m = re.match(r"^func\s+([A-Za-z_]\w*)\s*[(\[]", line) or re.match(r"^(?:type|var|const)\s+([A-Za-z_]\w*)", line)
+        if m:
+            names.add(m.group(1))
+    return names
+
+
+def harness_subset(pid):
+    """the harness files a property needs: its own files + main.go + rng.go, closed under use of identifiers
+       declared at top level in other harness files (an over-approximation by token)"""
+    h = os.path.join(VERIF, "harness")
+    files = sorted(f for f in os.listdir(h) if f.endswith(".go"))
+    src = {f: open(os.path.join(h, f), errors="replace").read() for f in files}
+    decl = {f: _go_decls(src[f]) for f in files}
+    toks = {f: set(re.findall(r"[A-Za-z_]\w*", src[f])) for f in files}
+    owner = {}
+    for f in files:
+        for n in decl[f]:
+            owner.setdefault(n, f)
+    need = {f for f in files if f in ("main.go", "rng.go") or f == pid.lower() + ".go" or f.startswith(pid.lower() + "_")}
+    changed = True
+    while changed:
+        changed = False
+        for f in list(need):
+            for t in toks[f]:
+                o = owner.get(t)
+                if o and o not in need and t not in decl[f]:
+                    need.add(o)
+                    changed = True
+    return sorted(need)
+
+
+def harness_subset_build(h, pid, spath):
+    """smallest file set first: the property's own files, then add the file that declares each identifier the
+       compiler reports as undefined, until it builds (falls back to the token closure of harness_subset)"""
+    all_files = sorted(f for f in os.listdir(h) if f.endswith(".go"))
+    decl = {f: _go_decls(open(os.path.join(h, f), errors="replace").read()) for f in all_files}
+    owner = {}
+    for f in all_files:
+        for n in decl[f]:
+            owner.setdefault(n, f)
+    need = [f for f in all_files if f in ("main.go", "rng.go") or f == pid.lower() + ".go" or f.startswith(pid.lower() + "_")]
+    for _ in range(40):
+        rc, out = _go_build(h, "verif", spath, need)
+        if rc == 0:
+            return need, rc, out
+        missing = {owner[n] for n in re.findall(r"undefined: ([A-Za-z_]\w*)", out) if n in owner and owner[n] not in need}
+        if not missing:
+            break
+        need = sorted(set(need) | missing)
+    files = harness_subset(pid)
+    rc, out = _go_build(h, "verif", spath, files)
+    return files, rc, out
+
+
+def _go_build(h, tags, outpath, files=None):
+    tmp = outpath + ".new"
+    cmd = ["timeout", "1800", "go", "build", "-tags", tags, "-o", tmp] + (files if files else ["."])
+    rc, out = sh(cmd, cwd=h, env=GOENV)
+    if rc == 0:
+        os.replace(tmp, outpath)
+    return rc, out
+
+
+def build_harness(pid=None):
+    """Builds the harness against REPO with hooks on. Normally one binary (build/harness) serves every property.
+       If that does not build - e.g. an edit of slog-agent changed an API that SOME property's harness uses - and a
+       property is given, only the files that property needs are built (build/harness.<ID>), so that an
+       incompatibility confined to other properties' harness code does not take this check down with it.
+       Returns (rc, output, path of the binary to run)."""
     h = os.path.join(VERIF, "harness")
     with Lock("harness"):
         shutil.copy(os.path.join(REPO, "go.sum"), os.path.join(h, "go.sum"))
         gm = open(os.path.join(h, "go.mod.tmpl")).read().replace("@REPO@", REPO)
         if not os.path.exists(os.path.join(h, "go.mod")) or open(os.path.join(h, "go.mod")).read() != gm:
             open(os.path.join(h, "go.mod"), "w").write(gm)
-        rc, out = sh(["timeout", "900", "go", "build", "-tags", "verif", "-o", os.path.join(BUILD, "harness.new"), "."],
-                     cwd=h, env=GOENV)
-        if rc == 0:
-            os.replace(os.path.join(BUILD, "harness.new"), os.path.join(BUILD, "harness"))
+        path = os.path.join(BUILD, "harness")
+        rc, out = _go_build(h, "verif", path)
         # optional extra builds of the same harness with more build tags, requested by a property through
         # "harness_variants": [{"name": "faketime", "tags": "verif faketime"}] in lib/props.d/<ID>.json;
-        # the binary is build/harness.<name> (started by that property's Run as a child process)
+        # the binary is <harness binary>.<name> (started by that property's Run as a child process)
         for name, tags in sorted(harness_variants().items()):
             if rc != 0:
                 break
-            tmp = os.path.join(BUILD, "harness.%s.new" % name)
-            rc, out = sh(["timeout", "1800", "go", "build", "-tags", tags, "-o", tmp, "."], cwd=h, env=GOENV)
-            if rc == 0:
-                os.replace(tmp, os.path.join(BUILD, "harness.%s" % name))
-    return rc, out
+            rc, out = _go_build(h, tags, path + "." + name)
+        if rc != 0 and pid:
+            spath = os.path.join(BUILD, "harness." + pid)
+            files, rc2, out2 = harness_subset_build(h, pid, spath)
+            if rc2 == 0:
+                for name, tags in sorted(harness_variants(pid).items()):
+                    rc2, out2 = _go_build(h, tags, spath + "." + name, files)
+                    if rc2 != 0:
+                        break
+            if rc2 == 0:
+                return 0, out + "\n(the complete harness does not build; %s uses the subset %s)" % (pid, " ".join(files)), spath
+    return rc, out, path
 
 
-def harness_variants():
+def harness_variants(pid=None):
     vs = {}
-    for f in sorted(glob.glob(os.path.join(VERIF, "lib", "props.d", "C*.json"))):
+    for f in sorted(glob.glob(os.path.join(VERIF, "lib", "props.d", (pid or "C*") + ".json"))):
         try:
             for v in json.load(open(f)).get("harness_variants", []):
                 vs[v["name"]] = v["tags"]
@@ -275,14 +367,14 @@ def main(argv):
     os.makedirs(repdir, exist_ok=True)
 
     if replay:
-        rc, out = build_harness()
+        rc, out, hbin = build_harness(pid)
         if rc != 0:
             print(out); return 2
         rc, out = build_ocaml(pid)
         data = [l for l in open(replay).read().splitlines() if l and not l.startswith("#")]
         cf = os.path.join(rundir, "replay_cases.txt")
         open(cf, "w").write("\n".join(data) + "\n")
-        rc1, out1 = sh([os.path.join(BUILD, "harness"), pid, "replay", cf], env=GOENV, timeout=3000)
+        rc1, out1 = sh([hbin, pid, "replay", cf], env=GOENV, timeout=3000)
         print(out1)
         rc2, out2 = sh([os.path.join(BUILD, "ocaml", pid, "driver"), "print", cf], stack_mb=P.get("driver_stack_mb"),
                         extra_env=P.get("driver_env"))
@@ -333,7 +425,7 @@ def main(argv):
     discharged = obligations if coq_ok and not bad_ax and not forb else 0
 
     # ---------- (2) implementation ----------
-    rc, out = build_harness()
+    rc, out, hbin = build_harness(pid)
     if rc != 0:
         # the tree does not build with hooks on: nothing can be concluded about the property
         print(out[-3000:])
@@ -347,7 +439,7 @@ def main(argv):
         problems.append("ocaml: extraction/driver build failed")
         notes.append(out[-2000:])
     corpus = os.path.join(VERIF, "corpus", pid)
-    cmd = [os.path.join(BUILD, "harness"), pid, "gen", rundir, "-tier", tier, "-seed", str(seed)]
+    cmd = [hbin, pid, "gen", rundir, "-tier", tier, "-seed", str(seed)]
     if os.path.isdir(corpus):
         cmd += ["-corpus", corpus]
     for f in ("cases.txt", "fails.txt", "stats.json"):
